@@ -57,7 +57,10 @@ Definition key_diff (c : cfg) (k key : Z) : Z :=
 (* Segment::operator()(k) *)
 Definition seg_eval (c : cfg) (s : segment) (k : Z) : Z :=
   let d := ofZ64 (key_diff c k (sg_key s)) in
-  wrapU 64 (double_to_size_t c (mul64 (sg_slope s) d) + sg_icpt s).
+  let p := mul64 (sg_slope s) d in
+  (* pos >= double(SIZE_MAX / 2), i.e. >= 2^63 (or +inf): saturate *)
+  if match truncZ p with Some z => z >=? 2 ^ 63 | None => true end then 2 ^ 63 - 1
+  else wrapU 64 (double_to_size_t c p + sg_icpt s).
 
 Record index := mkIndex {
   ix_n : Z;
